@@ -76,6 +76,10 @@ int xmp_start_smix(xmp_context opaque, int chn, int smp)
 		return -XMP_ERROR_STATE;
 	}
 
+	if (chn < 1 || chn > XMP_MAX_CHANNELS || smp < 0) {
+		return -XMP_ERROR_INVALID;
+	}
+
 	smix->xxi = (struct xmp_instrument *) calloc(smp, sizeof(struct xmp_instrument));
 	if (smix->xxi == NULL) {
 		goto err;
